@@ -264,6 +264,81 @@ def run_lh(data):
     return {'data': list(data), 'o': o}
 
 
+KEEP_STYLES = ('packet', 'data', 'parts')
+NOT_LH = {'called': False, 'bs': 0, 'x': [], 'y': []}
+NOT_RANGE = {'called': False, 'ids': [], 'vals': []}
+
+
+def _snap(loc, t, held):
+    """What a kept delivery shows NOW, as the `o` record of the lh / range events."""
+    try:
+        ptype, d = held()
+        if t == 'lh' and ptype == loc.LH_ANGLE_STREAM and isinstance(d, dict):
+            return {'called': True, 'bs': int(d['basestation']), 'x': [num(v) for v in d['x']], 'y': [num(v) for v in d['y']]}
+        if t == 'range' and ptype == loc.RANGE_STREAM_REPORT and isinstance(d, dict):
+            return {'called': True, 'ids': [int(k) for k in d], 'vals': [num(v) for v in d.values()]}
+    except Exception:
+        pass
+    return dict(NOT_LH if t == 'lh' else NOT_RANGE)
+
+
+def run_stream(keep, pkts):
+    """A stream of packets received by ONE Localization object whose receiver keeps what it is
+    given, the way applications do (the callback runs on the library's incoming thread, so the
+    packet is put aside -- a queue to another thread, the last packet per base station -- and read
+    later).  keep: 'packet' = the LocalizationPacket object, 'data' = its .data, 'parts' = the
+    values of the decoded dict (the angle lists themselves).
+    pkts: [t, bytes] with t 'lh' | 'range' (bytes after the type byte; judged) or 'other' (the
+    whole payload of some other localization packet in between; part of the history only).
+    Every judged packet is looked at twice: when it is delivered (o) and after the whole stream
+    has been received (late).  The receiver never writes to what it keeps."""
+    from cflib.crtp.crtpstack import CRTPPacket
+    from cflib.crazyflie.localization import Localization
+    cf = _FakeCf()
+    loc = Localization(cf)
+    incoming = cf.cbs[0][1]
+    held = []
+
+    def receiver(pk):
+        if keep == 'packet':
+            held.append(lambda: (pk.type, pk.data))
+            return
+        ptype, d = pk.type, pk.data
+        if keep == 'data' or not isinstance(d, dict) or 'x' not in d:
+            held.append(lambda: (ptype, d))
+            return
+        bs, x, y = d['basestation'], d['x'], d['y']
+        held.append(lambda: (ptype, {'basestation': bs, 'x': x, 'y': y}))
+    loc.receivedLocationPacket.add_callback(receiver)
+    type_byte = {'lh': loc.LH_ANGLE_STREAM, 'range': loc.RANGE_STREAM_REPORT}
+    evs, idx = [], []
+    for (t, data) in pkts:
+        pk = CRTPPacket()
+        pk.port = 6
+        pk.channel = loc.GENERIC_CH
+        pk.data = bytes(data) if t == 'other' else bytes([type_byte[t]]) + bytes(data)
+        n0 = len(held)
+        exc = None
+        try:
+            incoming(pk)
+        except Exception as e:
+            exc = type(e).__name__
+        if t == 'other':
+            continue
+        ev = {'t': t, 'data': list(data), 'o': dict(NOT_LH if t == 'lh' else NOT_RANGE)}
+        if exc:
+            ev['exc'] = exc
+        if len(held) == n0 + 1:
+            ev['o'] = _snap(loc, t, held[n0])
+            idx.append(n0)
+        else:
+            idx.append(None)
+        evs.append(ev)
+    for ev, i in zip(evs, idx):
+        ev['late'] = _snap(loc, ev['t'], held[i]) if i is not None else dict(ev['o'])
+    return evs
+
+
 # --------------------------------------------------------------------------- cases
 # A case is a JSON-able list; floats travel as float.hex() strings so that a replay file
 # reproduces the exact input.
@@ -275,12 +350,13 @@ def unfh(s):
     return float.fromhex(s)
 
 
-CHUNK = {'fp16': 256, 'quat': 64, 'traj': 64, 'range': 64, 'lh': 64, 'rgb': 1}
+CHUNK = {'fp16': 256, 'quat': 64, 'traj': 64, 'range': 64, 'lh': 64, 'rgb': 1, 'stream': 1}
+ONE_CASE_PER_TRACE = ('rgb', 'stream')          # the trace is the case (a sweep, a stream)
 
 
 def case_kind(case):
     return {'fp16': 'fp16', 'quat': 'quat', 'start': 'traj', 'seg': 'traj', 'rgb': 'rgb',
-            'range': 'range', 'lh': 'lh'}[case[0]]
+            'range': 'range', 'lh': 'lh', 'stream': 'stream'}[case[0]]
 
 
 def exec_case(case):
@@ -308,6 +384,9 @@ def exec_chunk(job):
             _, drv, ch, inten, o1, o2 = cases[0]
             eff, evs = run_rgb_sweep(drv, ch, inten, o1, o2)
             return {'kind': 'rgb', 'ch': ch, 'I': eff, 'o1': o1, 'o2': o2, 'drv': drv, 'ev': evs}
+        if kind == 'stream':
+            _, keep, pkts = cases[0]
+            return {'kind': 'stream', 'keep': keep, 'ev': run_stream(keep, [(t, bytes(d)) for (t, d) in pkts])}
         return {'kind': kind, 'ev': [exec_case(c) for c in cases]}
 
 
@@ -543,6 +622,90 @@ def cases_lh(tier, rng):
     return out
 
 
+HALF_CLASSES = [0x0000, 0x8000, 0x0001, 0x8001, 0x03ff, 0x0400, 0x3c00, 0xbc00, 0x7bff, 0xfbff, 0x7c00, 0xfc00, 0x7e00]
+MAX_STREAM = 64             # events per stream trace (VERDICT line width, see CodecsTrace)
+
+
+def cases_stream(tier, rng):
+    """Streams of range / angle packets received by one Localization object, the receiver keeping
+    every delivery (three ways of keeping, in turn).  First a systematic part: every ordered pair
+    of packet kinds, with and without another localization packet in between, neighbours that
+    differ in exactly one field (base station only, one offset only, one base angle only, one
+    anchor distance only), identical neighbours; then seeded random streams of 2..8 packets and a
+    few long ones."""
+    def lh_pkt(bs=None, bx=None, by=None, offs=None):
+        bs = rng.choice([0, 1, 0, 1, rng.randrange(256)]) if bs is None else bs
+        bx = (rng.choice(LH_BASES) if rng.random() < 0.3 else rnd_f32_bits(rng, finite=True)) if bx is None else bx
+        by = (rng.choice(LH_BASES) if rng.random() < 0.3 else rnd_f32_bits(rng, finite=True)) if by is None else by
+        offs = [rng.choice(HALF_CLASSES) if rng.random() < 0.35 else rng.randrange(65536) for _ in range(6)] if offs is None else offs
+        return ['lh', list(struct.pack('<BIHHHIHHH', bs, bx, offs[0], offs[1], offs[2], by, offs[3], offs[4], offs[5]))]
+
+    def range_pkt(cnt=None):
+        cnt = rng.randint(0, 6) if cnt is None else cnt
+        ids = rng.sample(range(8) if rng.random() < 0.6 else range(256), cnt)      # the same few anchors recur
+        return ['range', list(b''.join(bytes([a]) + struct.pack('<I', rnd_f32_bits(rng)) for a in ids))]
+
+    def other_pkt():
+        return ['other', rng.choice([[11, 1], [11, 0], [], [2, 1, 2, 3], [6] + [rng.randrange(256) for _ in range(5)],
+                                     [0, 1, 2, 3], [10, 1, 2]])]      # persist ack, empty, LPP, GNSS, malformed ones
+
+    def vary(p):
+        """the neighbour of packet p that differs from it in exactly one field"""
+        if p[0] == 'lh':
+            d = list(struct.unpack('<BIHHHIHHH', bytes(p[1])))
+            f = rng.choice([0, 0, 1, 5] + [2, 3, 4, 6, 7, 8])
+            if f == 0:
+                d[0] = (d[0] + 1) % 256 if rng.random() < 0.5 else d[0] ^ 1
+            elif f in (1, 5):
+                nb = rnd_f32_bits(rng, finite=True)
+                d[f] = nb if nb != d[f] else nb ^ 1
+            else:
+                d[f] = rng.choice([h for h in HALF_CLASSES if h != d[f]]) if rng.random() < 0.5 else d[f] ^ (1 << rng.randrange(16))
+            return ['lh', list(struct.pack('<BIHHHIHHH', *d))]
+        b = list(p[1])
+        if not b:
+            return range_pkt(1)
+        j = rng.randrange(len(b) // 5)
+        k = 5 * j + (0 if rng.random() < 0.3 else rng.randint(1, 4))
+        b[k] ^= 1 << rng.randrange(8)
+        if len({b[5 * i] for i in range(len(b) // 5)}) != len(b) // 5:      # anchor ids stay distinct
+            return range_pkt(len(b) // 5)
+        return ['range', b]
+
+    streams = []
+    mk = {'lh': lh_pkt, 'range': lambda: range_pkt(rng.randint(1, 5))}
+    for rep in range(2 if tier == 'quick' else 6):
+        for a in ('lh', 'range'):
+            for b in ('lh', 'range'):
+                for gap in (False, True):
+                    p1 = mk[a]()
+                    streams.append([p1] + ([other_pkt()] if gap else []) + [mk[b]()])
+                    if a == b:
+                        streams.append([p1] + ([other_pkt()] if gap else []) + [vary(p1)])
+                        streams.append([p1] + ([other_pkt()] if gap else []) + [vary(p1), vary(p1), p1])
+        p1 = lh_pkt()
+        streams.append([p1, list(p1)])                               # the same packet twice
+        streams.append([lh_pkt(bs=0), lh_pkt(bs=1), lh_pkt(bs=0), lh_pkt(bs=1)])      # two base stations in turn
+        streams.append([lh_pkt(bs=1, offs=[0] * 6), lh_pkt(bs=1, offs=[0x8000] * 6), lh_pkt(bs=1, offs=[0, 0x8000] * 3)])
+    n_rand, n_long = (150, 6) if tier == 'quick' else (1500, 60)
+    for i in range(n_rand + n_long):
+        length = rng.randint(2, 8) if i < n_rand else rng.randint(24, MAX_STREAM)
+        mix = rng.random()
+        st = []
+        while len([p for p in st if p[0] != 'other']) < length:
+            r = rng.random()
+            if st and st[-1][0] != 'other' and r < 0.2:
+                st.append(vary(st[-1]))
+            elif mix < 0.5:
+                st.append(lh_pkt())
+            elif mix < 0.65:
+                st.append(range_pkt())
+            else:
+                st.append(lh_pkt() if r < 0.55 else range_pkt() if r < 0.9 else other_pkt())
+        streams.append(st)
+    return [['stream', KEEP_STYLES[i % len(KEEP_STYLES)], st] for i, st in enumerate(streams)]
+
+
 # --------------------------------------------------------------------------- in-memory mutants
 # Realistic breakages of the codecs, monkeypatched in the harness process only (/repo untouched).
 def _m_fp16(variant):
@@ -660,6 +823,25 @@ def _m_lh_decode(variant):
             d['y'] = [raw[5]] + [raw[1] - L.fp16_to_float(raw[k]) for k in (6, 7, 8)]
         else:
             d['y'] = [raw[5]] + [raw[5] - sgn * L.fp16_to_float(raw[k]) for k in (6, 7, 8)]
+        # decoders that save allocations on the high-rate stream (state on the Localization object)
+        if variant == 'shared_buffer':          # one dict, one pair of lists, refilled in place
+            buf = self.__dict__.setdefault('_verif_buf', {'basestation': 0, 'x': [0, 0, 0, 0], 'y': [0, 0, 0, 0]})
+            buf['basestation'] = d['basestation']
+            buf['x'][:] = d['x']
+            buf['y'][:] = d['y']
+            return buf
+        if variant == 'shared_lists':           # a new dict per packet around the same two lists
+            xs, ys = self.__dict__.setdefault('_verif_lists', ([0, 0, 0, 0], [0, 0, 0, 0]))
+            xs[:] = d['x']
+            ys[:] = d['y']
+            return {'basestation': d['basestation'], 'x': xs, 'y': ys}
+        if variant == 'double_buffer':          # two buffers used in turn
+            st = self.__dict__.setdefault('_verif_db', {'n': 0, 'bufs': [{}, {}]})
+            st['n'] += 1
+            buf = st['bufs'][st['n'] % 2]
+            buf.clear()
+            buf.update(d)
+            return buf
         return d
     return _decode_lh_angle
 
@@ -672,6 +854,9 @@ def _m_incoming_range(variant):
         decoded = None
         if pk_type == self.RANGE_STREAM_REPORT:
             decoded = {}
+            if variant == 'shared_dict':         # one dictionary, emptied and refilled per report
+                decoded = self.__dict__.setdefault('_verif_ranges', {})
+                decoded.clear()
             raw = data
             for i in range(int(len(data) / 5)):
                 anchor_id, distance = struct.unpack('>Bf' if variant == 'big_endian' else '<Bf', raw[:5])
@@ -729,6 +914,9 @@ MUTANTS = {
     'rgb:green5': ('rgb',), 'rgb:swap_bytes': ('rgb',), 'rgb:no_rounding_offset': ('rgb',),
     'lh:plus': ('lh',), 'lh:y_uses_x_base': ('lh',),
     'range:big_endian': ('range',), 'range:stride4': ('range',),
+    # decoded objects re-used from packet to packet: visible only to a receiver that keeps them
+    'lh:shared_buffer': ('stream',), 'lh:shared_lists': ('stream',), 'lh:double_buffer': ('stream',),
+    'range:shared_dict': ('stream',),
 }
 
 
@@ -787,13 +975,13 @@ def judge(out, jobs, traces, label, explode=True):
             kind, cases = job
             clause, at, conf, conf_at, nbad, ndrift = verdicts[t['id']]
             res.traces += 1
-            if rnd == 1 or kind == 'rgb':
+            if rnd == 1 or kind in ONE_CASE_PER_TRACE:
                 res.events += len(t['ev'])
                 res.drift += ndrift
             if clause == 'ok':
                 continue
-            if kind == 'rgb':
-                res.bad.append((kind, cases[0], clause, dict(t['ev'][at - 1], first_of=nbad), t.get('tag')))
+            if kind in ONE_CASE_PER_TRACE:
+                res.bad.append((kind, cases[0], clause, dict(t['ev'][at - 1], first_of=nbad, at=at), t.get('tag')))
                 continue
             res.bad.append((kind, cases[at - 1], clause, t['ev'][at - 1], t.get('tag')))
             if nbad > 1 and explode:                      # the calls after the first failure, one by one
@@ -832,6 +1020,12 @@ def signature(kind, case, clause, ev):
         return '%s/%s/ch%d' % (clause, case[1], case[2])
     if kind == 'range':
         return '%s/anchors=%s' % (clause, 'none' if not case[1] else 'some')
+    if kind == 'stream' and clause.startswith('Kept'):
+        # what a kept packet no longer shows (base station, base angle, a sensor angle, anchor count,
+        # a distance); the half-float class of the offset is not what such a failure depends on
+        return 'KeptLhAngle' if clause.startswith('KeptLhAngle') else clause
+    if kind == 'stream' and ev.get('t') == 'range':     # wrong already at delivery: the single-packet class
+        return '%s/anchors=%s' % (clause, 'none' if not ev['data'] else 'some')
     return clause
 
 
@@ -864,6 +1058,19 @@ def describe(kind, case, ev):
         o = ev['o']
         return {'call': 'Localization._incoming(LH_ANGLE_STREAM + %s)' % bytes(case[1]).hex(),
                 'decoded': {'x': [show(v) for v in o['x']], 'y': [show(v) for v in o['y']]} if o['called'] else None}
+    if kind == 'stream':
+        def dec(o):
+            if not o['called']:
+                return None
+            if 'bs' in o:
+                return {'basestation': o['bs'], 'x': [show(v) for v in o['x']], 'y': [show(v) for v in o['y']]}
+            return {str(i): show(v) for i, v in zip(o['ids'], o['vals'])}
+        return {'call': 'one Localization object receives %s; the receiver keeps each %s and reads it again after the last packet'
+                        % (', '.join('%s:%s' % (t, bytes(d).hex()) for (t, d) in case[2]),
+                           {'packet': 'LocalizationPacket', 'data': 'packet.data', 'parts': "packet.data['x'], ['y'] list"}[case[1]]),
+                'packet_no': ev.get('at'), 'packet': '%s:%s' % (ev.get('t'), bytes(ev.get('data', [])).hex()),
+                'decoded_at_delivery': dec(ev['o']), 'same_object_after_the_stream': dec(ev['late']),
+                'exception': ev.get('exc'), 'failing_packets_in_stream': ev.get('first_of')}
     return {}
 
 
@@ -903,6 +1110,9 @@ def sim_case(st, mm_shift, dd_shift):
         return ['rgb', 'ring', a[0], a[1], a[2], a[3]]
     if k in ('range', 'lh'):
         return [k, list(st['out']['data'])]
+    if k == 'stream':
+        pk = [['lh', list(kp['data'])] for kp in st['kept']]
+        return ['stream', KEEP_STYLES[sum(sum(p[1]) for p in pk) % len(KEEP_STYLES)], pk]
     raise common.MachineryError('unknown kind in behaviour: %r' % (k,))
 
 
@@ -953,12 +1163,20 @@ def sim_matches(beh, ev):
         r = o['o']
         return (ev['o']['called'] and ev['o']['bs'] == r['bs'] and
                 all(_same_num(a, b) for a, b in zip(list(r['x']) + list(r['y']), ev['o']['x'] + ev['o']['y'])))
+    if k == 'stream':
+        # the receiver's kept objects against the spec's heap: at delivery (kept.now) and at the end
+        def same(r, e):
+            return (e['called'] and e['bs'] == r['bs'] and len(e['x']) == 4 and len(e['y']) == 4 and
+                    all(_same_num(a, b) for a, b in zip(list(r['x']) + list(r['y']), e['x'] + e['y'])))
+        return (len(ev) == len(st['kept']) and
+                all(same(kp['now'], e['o']) and same(st['heap'][kp['ref'] - 1], e['late']) for kp, e in zip(st['kept'], ev)))
     return False
 
 
 # --------------------------------------------------------------------------- the check
 BUG_CFGS = ['MC_Codecs_bug_fp16.cfg', 'MC_Codecs_bug_lh.cfg', 'MC_Codecs_bug_quat.cfg',
-            'MC_Codecs_bug_quatdec.cfg', 'MC_Codecs_bug_traj.cfg', 'MC_Codecs_bug_rgb.cfg']
+            'MC_Codecs_bug_quatdec.cfg', 'MC_Codecs_bug_traj.cfg', 'MC_Codecs_bug_rgb.cfg',
+            'MC_Codecs_bug_stream.cfg']
 
 
 def _expect_bug(cfg):
@@ -987,6 +1205,9 @@ def main(tier, seed, replay=None):
         'RGB565: monotone per channel at fixed intensity, other channels unaffected; LED.set() ignores intensity 0, so 0 is set through the attribute',
         'range reports: anchor ids in one packet are distinct; lighthouse: base angles finite; a sensor angle base-offset that '
         'is not a double must be the correctly rounded double; sign of a zero difference is not judged',
+        'streams: what a packet "decodes to" is the object handed to the receiver (LocalizationPacket / its .data / the lists in it); '
+        'a receiver that keeps it and never writes to it must still read this packet\'s values after later packets of the stream '
+        'have been received by the same Localization object',
     ]
     if replay:
         rp = json.load(open(replay))['replay']
@@ -1023,7 +1244,7 @@ def main(tier, seed, replay=None):
     sim_traces = run_jobs(sim_jobs)
     by_case = {}
     for (kind, cs), t in zip(sim_jobs, sim_traces):
-        if kind == 'rgb':
+        if kind in ONE_CASE_PER_TRACE:
             by_case[json.dumps(cs[0])] = t['ev']
         else:
             for c, e in zip(cs, t['ev']):
@@ -1040,6 +1261,8 @@ def main(tier, seed, replay=None):
     # 3. code -> spec: enumerations (exhaustive where the space is finite) + seeded random
     cases = cases_fp16() + cases_quat(tier, rng) + cases_traj(tier, rng) + cases_rgb(tier, rng) + \
         cases_range(tier, rng) + cases_lh(tier, rng)
+    stream_cases = cases_stream(tier, rng)          # drawn last: the other kinds see the same random numbers as before
+    cases += stream_cases
     jobs = chunked(cases)
     traces = run_jobs(jobs)
     stage('run real code')
@@ -1051,6 +1274,7 @@ def main(tier, seed, replay=None):
     per_kind = {}
     for (k, cs) in sim_jobs + jobs:
         per_kind[k] = per_kind.get(k, 0) + (256 if k == 'rgb' else len(cs))
+    per_kind['stream'] = sum(len(t['ev']) for (k, _cs), t in zip(sim_jobs + jobs, sim_traces + traces) if k == 'stream')
     out.evaluations = res.events
     out.distinct = len({json.dumps(c) for c in cases}) + len(uniq)
     out.exhaustive = True
@@ -1062,27 +1286,35 @@ def main(tier, seed, replay=None):
     out.extra['sampled_spaces'] = ['random quaternions (integer vectors at binary scales, float unit quaternions)',
                                    'trajectory coordinates/yaw: boundary list around every int16 limit + random across and beyond the range',
                                    'range reports: 0..12 anchors, random float32 bit patterns incl. specials',
-                                   'lighthouse packets: every half-float pattern as an offset (quick: one sixth + all classes), listed and random finite bases']
+                                   'lighthouse packets: every half-float pattern as an offset (quick: one sixth + all classes), listed and random finite bases',
+                                   'streams on one Localization object with a receiver that keeps the deliveries (packet / .data / the angle lists): '
+                                   'all ordered pairs of packet kinds with and without another packet in between, neighbours differing in one field, '
+                                   'random streams of 2..8 and 24..64 packets; each packet judged at delivery and after the stream']
     out.rule = ('one evaluation = one call of a real codec function (fp16_to_float, compress+decompress_quaternion, '
-                'CompressedStart/CompressedSegment.pack, one LED level through write_data, Localization._incoming) whose exactly '
+                'CompressedStart/CompressedSegment.pack, one LED level through write_data, Localization._incoming; for a packet of a '
+                'stream: the delivery plus the later look at the kept object) whose exactly '
                 'converted input and output were judged by TLC with CodecsProps; distinct = distinct inputs; all are non-trivial')
     picks = [c for c in (['fp16', 0x8000, False], ['fp16', 0x3555, False]) ] + [cases[len(cases) // 3], cases[-1]]
     for c in picks:
         k = case_kind(c)
-        if k != 'rgb':
+        if k not in ONE_CASE_PER_TRACE:
             _init()
             out.samples.append(describe(k, c, exec_case(c)))
+    _init()
+    sc = stream_cases[0]
+    out.samples.append(describe('stream', sc, dict(exec_chunk(('stream', [sc], None))['ev'][0], at=1)))
     out.extra['violation_groups'] = {s: len(g) for s, g in groups.items()}
 
     stage('report')
     # 4. sensitivity: in-memory mutants must be rejected by the monitor; corrupted traces too
     sub = {}
-    step = {'fp16': 101, 'quat': 61, 'traj': 17, 'rgb': 40, 'range': 29, 'lh': 37} if tier == 'quick' else \
-        {'fp16': 11, 'quat': 97, 'traj': 23, 'rgb': 25, 'range': 41, 'lh': 7}
+    step = {'fp16': 101, 'quat': 61, 'traj': 17, 'rgb': 40, 'range': 29, 'lh': 37, 'stream': 1} if tier == 'quick' else \
+        {'fp16': 11, 'quat': 97, 'traj': 23, 'rgb': 25, 'range': 41, 'lh': 7, 'stream': 1}
     for k in CHUNK:
         ks = [c for c in cases if case_kind(c) == k]
         sub[k] = ks[::step[k]]
     sub['rgb'] = [['rgb', 'ring', ch, inten, o, o] for ch in (1, 2, 3) for (inten, o) in ((100, 0), (50, 0), (100, 255))]
+    sub['stream'] = stream_cases[:30]               # the systematic streams, all three ways of keeping
     mjobs, mtraces, owner = [], [], []
     for name in sorted(MUTANTS):
         js = chunked([c for k in MUTANTS[name] for c in sub[k]])
@@ -1100,8 +1332,13 @@ def main(tier, seed, replay=None):
     good_q['ev'][2]['d'][1]['s'] ^= 1
     good_r = copy.deepcopy(next(t for (k, cs), t in zip(jobs, traces) if k == 'rgb' and t['I'] == 100))
     good_r['ev'][200]['b'] = good_r['ev'][100]['b']
+    # a stream in which the first kept packet later shows what the second one decoded to
+    good_s = copy.deepcopy(next(t for (k, cs), t in zip(jobs, traces)
+                                if k == 'stream' and [e['t'] for e in t['ev'][:2]] == ['lh', 'lh'] and
+                                t['ev'][0]['data'][1:5] != t['ev'][1]['data'][1:5]))
+    good_s['ev'][0]['late'] = copy.deepcopy(good_s['ev'][1]['o'])
     corrupt = [('binding:fp16-output-exponent+1', good_fp), ('binding:quat-component-sign-flipped', good_q),
-               ('binding:rgb-level-200-replaced-by-100', good_r)]
+               ('binding:rgb-level-200-replaced-by-100', good_r), ('binding:stream-first-packet-later-shows-the-second', good_s)]
     for name, t in corrupt:
         mjobs.append((t['kind'], [['corrupted']] * max(1, len(t['ev']))))
         mtraces.append(t)
